@@ -381,4 +381,46 @@ theorem seekForPrev_ok {env : Env} {t : TableCore} {G : List (List Entry)} (ok :
       have := lt_of_getElem?_some he'
       omega
 
+/-! ## naive `find?` specifications from index characterisations -/
+
+theorem find?_index {α : Type} (P : α → Bool) : ∀ (es : List α) (p : Nat),
+    (∀ k e, k < p → es[k]? = some e → P e = false) → (∀ e, es[p]? = some e → P e = true) →
+    es.find? P = es[p]? := by
+  intro es
+  induction es with
+  | nil => intro p _ _; simp
+  | cons x xs ih =>
+    intro p hlo hhi
+    cases p with
+    | zero =>
+      have := hhi x (by simp)
+      simp [List.find?_cons, this]
+    | succ p =>
+      have hx := hlo 0 x (by omega) (by simp)
+      simp only [List.find?_cons, hx, List.getElem?_cons_succ]
+      exact ih p (fun k e hk he => hlo (k + 1) e (by omega) (by simpa using he))
+        (fun e he => hhi e (by simpa using he))
+
+theorem find?_reverse_index {α : Type} (P : α → Bool) (es : List α) (q : Nat) (e : α)
+    (he : es[q]? = some e) (hP : P e = true)
+    (hhi : ∀ k e', q < k → es[k]? = some e' → P e' = false) :
+    es.reverse.find? P = some e := by
+  have hq := lt_of_getElem?_some he
+  have hsplit : es = es.take q ++ e :: es.drop (q + 1) := by
+    have h1 : es.drop q = e :: es.drop (q + 1) := by
+      rw [List.drop_eq_getElem_cons hq]
+      rw [List.getElem?_eq_getElem hq] at he
+      rw [Option.some.inj he]
+    rw [← h1, List.take_append_drop]
+  rw [List.find?_eq_some_iff_append]
+  refine ⟨hP, (es.drop (q + 1)).reverse, (es.take q).reverse, ?_, ?_⟩
+  · conv => lhs; rw [hsplit]
+    simp
+  · intro a ha
+    rw [List.mem_reverse] at ha
+    obtain ⟨k, hk⟩ := List.getElem?_of_mem ha
+    rw [List.getElem?_drop] at hk
+    simp [hhi (q + 1 + k) a (by omega) hk]
+
+
 end Badger.Tbl
